@@ -1,8 +1,6 @@
 # -*- python -*-  (exec'd by gen_manifest.py)
 not_applicable = {
  "C16": "data-race freedom and schedule independence quantify over goroutine interleavings; sequential function contracts (pre/post/invariant) cannot express or decide them, and no concurrent program logic for Go is available in this sandbox (DESIGN.md section 9, C16)",
- "C07": "byte-level encode/decode round trip and header-flag contracts are not built: they need the bit-vector mode for flag.go and write-through views of the Encoder scratch buffer, which the generator does not have yet; no contract within reach decides the property (DESIGN.md, Status)",
- "C17": "bulk build / copy / byte-conversion functions (NewArrayFromBatchData, nextLevel*Slabs, copyWithNewSlabID, ByteSliceToByteArray) are not under contract yet",
 }
 
 A_TREE = ("Composition to whole trees is by the assumed tree invariant one level down (childrenReady / rootReady / frame assumption F, listed per run); "
@@ -68,6 +66,23 @@ add("C13",
     "PopIterate order and mutation-during-iteration across slab splits are not covered; OrderedMap.getElementAndNextKey/getNextKey are trusted compositions; the ghost functions flat/fkE/fkEs/fkS/nkIn are defined by assumed unfoldings; "
     "collision groups are assumed non-empty; nested cursors assumed acyclic.",
     "DESIGN.md Status, 9/C13")
+add("C07",
+    "Header flags only: every helper of flag.go is proved against a bit-level contract (version nibble, root / holds-references / any-size / has-next / has-inlined bits, slab kind in the low five bits; setters change exactly their bit); "
+    "the head written first by each slab encoder (ArrayDataSlab, MapDataSlab, ArrayMetaDataSlab, MapMetaDataSlab, StorableSlab .Encode) is proved truthful at the point it is written: version 1, kind matches the slab type "
+    "(collision-group leaves included), root bit = has extra data, holds-references bit = some element / key / value is or contains a reference (hasPointer family proved down to single elements, element lists and groups), "
+    "any-size bit and next-slab bit from the slab's fields; the compact-map decoder gives every decoded map a private copy of the shared digests and fresh elements (content view).",
+    "The byte-level round trip decode(encode(s)) == s and canonical re-encoding are NOT decided (the CBOR stream encoder is an external dependency and the scratch-buffer write-through is not modelled); "
+    "ArrayDataSlab.HasPointer is a trusted contract (slices.ContainsFunc); the has-inlined-slabs bit is not asserted; index slabs never set the holds-references bit (asserted as is).",
+    "DESIGN.md Status, 9/C07")
+add("C17",
+    "Copy: Array.CopyNonRefSimple / OrderedMap.CopyNonRefSimple and everything below them (copyWithNewSlabID, hkeyElements / singleElements / singleElement .copyNonRefSimple and canCopyNonRefSimple): the copy is offered exactly when the root is a leaf "
+    "without sibling whose elements all answer CanCopyNonRefSimple, and then it succeeds; the copy is a fresh standalone root with the new id, the same count / first key / seed, the standalone-root size, new backing stores for "
+    "elements and digests (origin inequality: nothing shared), fresh element objects, and is stored; the source is not written. "
+    "Build: NewArrayFromBatchData packs the stream into leaves that are locally well-formed and closed only at >= target size (loop invariant), nextLevelArraySlabs packs children into well-formed index slabs, all full but the last and within "
+    "the size limit, and the root leaf gets the root prefix (exit clause); ByteSliceToByteArray takes the single-slab path only when the real accumulated size fits (call-site pre-condition of newArrayWithElements).",
+    A_TREE + "NewMapFromBatchData / nextLevelMapSlabs and ByteArrayToByteSlice are not under contract; element-level CopyNonRefSimple of caller-supplied storables is an assumed interface contract (answer is a function of the storable); "
+    "rebalancing of the last two nodes on each level is checked only through the callee pre-conditions that discharge; count overflow (uint32) is not excluded.",
+    "DESIGN.md Status, 9/C17")
 add("C14",
     "commit and FastCommit (apply phase): at every return, error or not, processed ids are written and no longer pending, unprocessed ids are still pending with untouched registers, and the overlay view is unchanged for every id; a ledger error is returned categorised; NondeterministicFastCommit: partition loop for any map order, single-slab path, deletion loop and result loop (second view) preserve the view and coherence.",
     "A3 atomic register operations; A7 cuts: encoder goroutines / received results are assumed to be (id, EncodeSlab(deltas[id])); the retry-convergence lemma is an induction over these post-conditions, not re-proved by the solver.",
@@ -85,11 +100,17 @@ add("C19",
     "Only this decoder and the arithmetic helpers are covered so far; the CBOR-based decoders need assumed contracts of the stream decoder and are not under contract.",
     "DESIGN.md Status, 9/C19")
 add("C20",
-    "Child-reference enumeration is complete and order-preserving for ArrayDataSlab, ArrayMetaDataSlab, MapMetaDataSlab and for map elements (single element: key and value; external group: its slab reference; inline group: its nested list).",
-    "CheckStorageHealth and getAllChildReferences themselves (graph reachability over an unbounded storage) are not decided; no bounded stand-in is built.",
-    "DESIGN.md Status, 9/C20")
+    "Child-reference enumeration is complete and order-preserving for ArrayDataSlab, ArrayMetaDataSlab, MapMetaDataSlab and for map elements (single element: key and value; external group: its slab reference; inline group: its nested list). "
+    "CheckStorageHealth: exit-state contract over the checker's own tables, proved with loop invariants for all six loops: on success every recorded reference resolves to an iterated slab (no dangling reference), "
+    "every referencing slab is an iterated slab, every visited child has the owner of its parent, every reported root is a parentless iterated slab, the root count matches when requested, and the number of distinct "
+    "referenced slabs equals the number of references enumerated (no slab referenced twice; ghost counter on ChildStorables invocations). "
+    "One genuine defect found by this check and repaired in /repo (fix: 6e5cc9e, dangling references were not reported).",
+    "Counting arguments that need set cardinalities (every slab visited: len(visited) == len(slabs) implies equality) and GetAllChildReferences are not decided; the slab iterator is an assumed function-type contract; "
+    "'with all slabs loaded' is an input assumption.",
+    "DESIGN.md Status, 9/C20, KNOWN_FINDINGS")
 
 add("C11",
     "Stale-handle re-validation: the updater closures installed on a child (Array.setCallbackWithChild#1, OrderedMap.setCallbackWithChild#1) return found=false with nil error and leave the former parent's slabs, root, child-index map and the pending write set untouched when the tracked index entry is gone (array), when the key is absent (map), or when the element found at the tracked index / key is not a slab or slab reference carrying the child's value id; the array child-index map is maintained exactly under insert/remove for any map iteration order.",
-    "Overwrite/removal deleting the index entry and uninlining the detached child (Array.Set/Remove, OrderedMap.Set/Remove with uninlineStorableIfNeeded) is NOT under contract yet; value-id comparison and the map lookup are abstracted (trusted contracts ValueID.equal, OrderedMap.get).",
+    "Array.Set/Remove forget the handle of the detached child (by the value id reported by uninlineStorableIfNeeded, proved for inlined slabs, references and wrappers) and keep the handle of the value just stored, also when the same container is stored again wrapped; "
+    "OrderedMap.Set/Remove are not under contract; value-id comparison and the map lookup are abstracted (trusted contracts ValueID.equal, slabIDToValueID, OrderedMap.get); ghost cvid is defined by assumed unfoldings.",
     "DESIGN.md Status, 9/C11")
